@@ -71,4 +71,32 @@ CHECKS = {
              "decoded event list must equal the harness reader's. SMFSanity: hand-built files and 33 corruption classes get the labelled verdicts.",
         note="TLC, SMF.tla; note balance is checked per track (crd keeps a note's on and off on one track)",
         technique="TLA+ byte-level recogniser as trace specification; TLC validates the raw bytes written by the real CLI"),
+    "C16": dict(
+        text="Dict.tla states the dictionary: load-ordered definitions (built-ins, then user files), later wins per name and per display, parent-first "
+             "transitive resolution, accepted iff every entry is named, no dangling attribute/extends, acyclic. Every enumerated user dictionary (pool of "
+             "entries x attribute-file variants; all one-entry and - thorough - all two-entry dictionaries incl. every cycle shape) is loaded by the real "
+             "binary and each user name/display played; built-ins: attr list = gen attr -d 20, English names, every chord by name and display.",
+        note=TB + "; combinations where a user override would change a built-in that inherits from it are not generated (the property is silent)",
+        technique="TLA+ dictionary model (Dict.tla) + TLC validation of real CLI runs over an enumerated dictionary space"),
+    "C04": dict(
+        text="Grammar.tla derives all sentences <= L tokens from the productions extracted at check time from the working tree's chords.y (unambiguity "
+             "checked); ChordLangMC: the hand-written recogniser agrees with the grammar on all token strings <= N and all single-token mutations of "
+             "sentences; LexerMC: progress, termination, nothing-dropped and mode discipline for all inputs <= K runes. Binding: every sentence rendered with "
+             "seeded trivia, concatenations (long pieces), every proper prefix, token mutations, and ALL strings over 20 runes up to n (3 quick / 4 thorough) "
+             "go through the real `crd text parse` under a watchdog; TLC requires accepted iff Lexer o ChordLang accept, tree equal, refusal = error.",
+        note=TB + "; 'the parser shipped is the one goyacc generates' is decided behaviourally up to the bound",
+        technique="TLA+ grammar/lexer specification, TLC-generated sentences replayed into the real CLI, TLC validation of every outcome"),
+    "C05": dict(
+        text="Conv.tla models the converter as a fold carrying the current key (change applied before the carrying chord). Each seeded progression is "
+             "rendered as degree text and as note-name text per start key; the spec first re-derives that the renderings denote the same progression "
+             "(otherwise: bad test input, exit 2), then real `text conv degree|syllable --key K` outputs must equal that meaning and each other byte for "
+             "byte; refusals only outside C03's guarantee. Second half: `write --key K1` vs `--key K2` differ by the tonic distance on every pitch only.",
+        note=TB + "; note names can only express simple intervals, so progressions use degrees 1..7",
+        technique="TLA+ converter model (Conv.tla) + TLC validation of metamorphic observations of the real CLI"),
+    "C11": dict(
+        text="Lexer.tla defines the abstract token sequence (NUMBER by value, SHARP/FLAT by kind, optional `_` dropped). For each (canonical text, "
+             "variant) pair - trivia at seeded gaps, `_`, leading zeros, Unicode accidentals - TLC first re-derives that the pair is a variant pair, then "
+             "requires byte-identical `text conv` output, equal success, and the meaning Conv.tla computes (an accepted accidental is honoured).",
+        note=TB,
+        technique="TLA+ lexer/converter specification + TLC validation of variant pairs run through the real CLI"),
 }
